@@ -251,6 +251,15 @@ def r4(prog, run):
                 l = f.nodes[f.skip(n['l'])]
                 if l.get('f') in (OUT, INC) and f.const_value(n['r']) == ('int', 0):
                     return st + (('zero', l['name']),) if ('zero', l['name']) not in st else None
+            if n['k'] == 'call' and not n.get('op'):
+                for h in prog.callee_fns(f, n):
+                    if h.entry is not None and (h.record or '') == SAM and h.id != f.id:
+                        out = st
+                        for q in sorted(zeroed_by(prog, h)):
+                            if q in (OUT, INC) and ('zero', q.split('::')[-1]) not in out:
+                                out = out + (('zero', q.split('::')[-1]),)
+                        if out != st:
+                            return out
             if n['k'] == 'call':
                 name = (f.sym(n) or {}).get('name')
                 if _obj_field(f, n) == UNACK and name in ('insert', 'clear', 'erase', 'remove'):
@@ -414,7 +423,8 @@ def r5(prog, run):
             continue
         run.instance(rid)
         top = top_function(prog, f)
-        if top.qname in (SAM + '::handleStanza', SAM + '::enableStreamManagement'):
+        if top.qname in (SAM + '::handleStanza', SAM + '::enableStreamManagement') or \
+                ((top.record or '') == SAM and only_called_from(prog, top, SAM + '::enableStreamManagement')):
             run.ok(rid, f.loc(i), 'inbound counter written by %s (%s)' % (top.qname.split('::')[-1], h), nontrivial=False)
         else:
             run.violation(rid, 'inbound-counter-writer#%s' % top.qname, f.loc(i), '%s modifies the inbound stanza counter' % top.display())
@@ -506,6 +516,32 @@ def r7(prog, run):
                           % cn.split('::', 1)[-1])
 
 
+_ZEROED = {}
+
+
+def zeroed_by(prog, g):
+    """members of the acknowledgement manager that the member function g sets to 0 on every path"""
+    if g.id in _ZEROED:
+        return _ZEROED[g.id]
+    _ZEROED[g.id] = set()
+
+    def zt(f, nid, st):
+        n = f.nodes[nid]
+        if n['k'] == 'assign':
+            l = f.nodes[f.skip(n['l'])]
+            if l['k'] == 'mem' and f.const_value(n['r']) == ('int', 0) and l['f'] not in st:
+                return tuple(sorted(st + (l['f'],)))
+        return None
+    exits, _ = cfgx.explore(g, (), zt, None, max_states=5000)
+    _ZEROED[g.id] = set.intersection(*[set(st) for st in exits]) if exits else set()
+    return _ZEROED[g.id]
+
+
+def only_called_from(prog, g, qn):
+    cs = [top_function(prog, c) for c, ci in prog.callers().get(g.id, []) if c.nodes[ci]['k'] == 'call']
+    return bool(cs) and all(c.qname == qn for c in cs)
+
+
 def r9(prog, run):
     rid = run.rule('C09.R9', 'the unacknowledged stanzas are kept in a container that iterates in ascending key order (QMap / std::map): the acknowledgement loop stops at the '
                              'first key above h, and resending / renumbering follow iteration order - in a hash container covered stanzas stay unconfirmed and the '
@@ -544,6 +580,12 @@ def r8(prog, run):
             l = f.nodes[f.skip(n['l'])]
             if l['k'] == 'mem' and f.const_value(n['r']) == ('int', 0) and l['f'] not in st:
                 return tuple(sorted(st + (l['f'],)))
+        if n['k'] == 'call' and not n.get('op'):
+            for h in prog.callee_fns(f, n):
+                if h.entry is not None and (h.record or '') == SAM and h.id != f.id:
+                    add = tuple(q for q in sorted(zeroed_by(prog, h)) if q not in st)
+                    if add:
+                        return tuple(sorted(st + add))
         return None
     exits, _ = cfgx.explore(en, (), zt, lambda f, c, st: ev.ev(c, st), max_states=20000)
     always = set.intersection(*[set(st) for st in exits]) if exits else set()
@@ -555,7 +597,7 @@ def r8(prog, run):
         if not tc.startswith('int'):
             continue
         q = fl.get('qname') or (SAM + '::' + fl['name'])
-        writers = [(f, i) for f, i, k, h in field_uses(prog, q) if k in ('write', 'addr') and h != 'constructor initialiser' and top_function(prog, f).qname != SAM + '::enableStreamManagement']
+        writers = [(f, i) for f, i, k, h in field_uses(prog, q) if k in ('write', 'addr') and h != 'constructor initialiser' and top_function(prog, f).qname != SAM + '::enableStreamManagement' and not only_called_from(prog, top_function(prog, f), SAM + '::enableStreamManagement')]
         if not writers:
             continue
         n_fields += 1
